@@ -17,8 +17,10 @@ ASSUMPTIONS = [
     "an unmatched } as or in an argument or in a parameter text, \\or inside the skipped branch of a binary "
     "conditional, and the recorded findings gdef-ignores-negative-globaldefs (C01) and "
     "noexpand-lost-under-expandafter (C07), which their own checks decide)",
-    "TexVM: texlang's `\\let\\a=\\undefined` leaves \\a unchanged (TeX makes it undefined); the model follows "
-    "texlang here (named deviation LetUndefinedIsNoop, an observation outside the listed properties)",
+    "TexVM: where texlang knowingly differs from TeX outside the listed properties the model takes no side and "
+    "the run is counted as outside the model: `\\let\\a=\\undefined` (TeX: \\a becomes undefined; texlang: no-op), a "
+    "# that reaches execution (TeX: error; texlang: typeset), a blank or \\relax between `\\toks n=` and its brace, "
+    "two or more spaces in front of the target of a definition",
 ]
 
 
